@@ -73,7 +73,7 @@ Definition mon_ev (m : mon) (e : event) : mon :=
 Definition cache_after (c : cmd) (r : resp) (rw : bool) (cache : option (list msg)) : option (list msg) :=
   match c, r with
   | CCheckpoint, RExn EIMS => cache
-  | CCheckpoint, _ => reset_spec cache
+  | CCheckpoint, _ => Some []          (* an explicit checkpoint (re-)establishes resumability *)
   | CClearCheckpoint, _ => None
   | CRewindable (Some b), _ => if negb (Bool.eqb b rw) then reset_spec cache else cache
   | CCloseRun _ _, RVal _ => reset_spec cache
@@ -122,7 +122,7 @@ Definition mon_obs (m : mon) (o : obs) : mon :=
           (* the command suspended: only a checkpoint has already acted (it is sleeping out the
              grace period of a deferred pause) *)
           {| mstate := mstate m;
-             mcache := if is_checkpoint (mcmd x) then reset_spec (mcache m) else mcache m;
+             mcache := if is_checkpoint (mcmd x) then Some [] else mcache m;
              mrw := mrw m; mdef := mdef m; mpend := None;
              msleep := is_checkpoint (mcmd x) && mdef m; mcause := false; mok := mok m |}
       end
@@ -501,11 +501,16 @@ Proof.
   - (* checkpoint *)
     destruct (any_bundling P D s).
     + intros H; inv H. eapply done_quiet; eauto using teq_refl; rewrite Ec; reflexivity.
-    + destruct (reset_checkpoint_spec s) as (Q1 & Q2 & Q3 & Q4 & Q5).
-      rewrite Q4, B4. destruct (mdef m) eqn:Ed; intros H; inv H; cbn [app mon_obss fold_left mon_obs]; rewrite Hp, Ec; cbn.
+    + set (s0 := match cache P D s with None => set_cache P D s (Some []) | Some _ => s end).
+      assert (T0 : state P D s0 = state P D s /\ rewindable P D s0 = rewindable P D s /\ deferred P D s0 = deferred P D s /\
+                   bundlers P D s0 = bundlers P D s /\ reset_spec (cache P D s0) = Some [])
+        by (unfold s0; destruct (cache P D s) eqn:Ecs; cbn; rewrite ?Ecs; repeat split).
+      destruct T0 as (T1 & T2 & T3 & T4 & T5).
+      destruct (reset_checkpoint_spec s0) as (Q1 & Q2 & Q3 & Q4 & Q5).
+      rewrite Q4, T3, B4. destruct (mdef m) eqn:Ed; intros H; inv H; cbn [app mon_obss fold_left mon_obs]; rewrite Hp, Ec; cbn.
       * split; [|intros _; exact Ed]. split; [|reflexivity].
-        unfold Rc; cbn. rewrite Q1, Q2, Q3, Q4, B2. (repeat split; auto; try congruence).
-      * split; [|reflexivity]. unfold Rc; cbn. rewrite Q1, Q2, Q3, Q4, B2. (repeat split; auto; try congruence).
+        unfold Rc; cbn. rewrite Q1, Q2, Q3, Q4, T1, T2, T3, T5. (repeat split; auto; try congruence). apply Q5. rewrite T4. exact B6.
+      * split; [|reflexivity]. unfold Rc; cbn. rewrite Q1, Q2, Q3, Q4, T1, T2, T3, T5. (repeat split; auto; try congruence). apply Q5. rewrite T4. exact B6.
   - (* clear_checkpoint *)
     intros H; inv H. cbn [app mon_obss fold_left mon_obs]. rewrite Hp, Ec. split; [|reflexivity].
     unfold Rc; cbn. (repeat split; auto; try congruence). apply bintr_ok_map; [apply bok_clear | exact B6].
